@@ -25,6 +25,7 @@ def handle (line : String) : String :=
       | "argctx" => Drv.opArgCtx j
       | "leafsig" => Drv.opLeafSig j
       | "scope" => Drv.opScope j
+      | "order" => Drv.opOrder j
       | _ => .error s!"unknown op {op}"
     match r with
     | .ok o => o.compress
